@@ -155,7 +155,7 @@ fn skymap_fits(depth: u8, pix: &[u64]) -> Vec<u8> {
 /// handed to the selection must be the list of positive pixels in pixel order and the result must be
 /// the model's selection on it, whatever the options.  Family 2: contiguous runs of equal values;
 /// only the tie-independent facts are decided (from = 0, to = total selects exactly the positive
-/// pixels; from = to selects nothing in strict mode).
+/// pixels; from = to selects nothing in strict no-split mode).
 fn skymap_cases(rep: &mut Report, orc: &mut Oracle, rng: &mut Rng, n: u64) {
   for it in 0..n {
     let depth: u8 = if rng.chance(1, 3) { 1 } else { 0 };
@@ -224,7 +224,9 @@ fn skymap_cases(rep: &mut Report, orc: &mut Oracle, rng: &mut Rng, n: u64) {
     };
     if family2 {
       let sh = 2 * (29 - depth as u32);
-      let exp: Vec<(u64, u64)> = if from == to && strict {
+      // (in split mode a pair of thresholds strictly inside one - fused - cell is the known finding D19b,
+      // reported with its checker flags by the main stream: not re-tested here)
+      let exp: Vec<(u64, u64)> = if from == to && strict && nosplit {
         Vec::new()
       } else if from == 0 && to == total {
         let mut v: Vec<(u64, u64)> = Vec::new();
